@@ -141,7 +141,22 @@ func parseIDs(ids []string) []uuid.UUID {
 }
 
 // Exec runs one resolved call on the real code and returns what was observed.
-func (r *Runner) Exec(c model.Call) model.Obs {
+func (r *Runner) Exec(c model.Call) (o model.Obs) {
+	// a panicking handler is an observation (the request failed), not a harness crash
+	defer func() {
+		if p := recover(); p != nil {
+			o.T1 = r.W.Now()
+			o.Err = fmt.Sprintf("PANIC: %v", p)
+			if !r.Bare {
+				o.Rows = r.rows()
+				r.liveViews(&o)
+			}
+		}
+	}()
+	return r.exec(c)
+}
+
+func (r *Runner) exec(c model.Call) model.Obs {
 	w := r.W
 	ctx := context.Background()
 	if r.Ctx != nil {
